@@ -307,6 +307,10 @@ class InterleaveProfile:
         res = ex.finish()
         if res.viol or not ops or ops[0]["op"] != "announce":
             return None
+        if ended_at is not None:
+            # a successor may take the id over only after the server's last line about this client (lines that
+            # crossed the verdict included): one server link carries them in order; service replies may lag
+            ended_at = max([ended_at] + [n for n, o in enumerate(ops) if o["op"] == "cli"])
         self.last_ended_at = ended_at
         self.last_bar = bar
         return ops
@@ -316,7 +320,9 @@ class InterleaveProfile:
         timeout = rnd.random() < 0.5
         cfg["timeout"] = self.T if timeout else 0
         barrier = None
-        if not timeout and cfg["services"] and rnd.random() < 0.35:
+        if not timeout and cfg["services"] and not cfg.get("wide_table") and rnd.random() < 0.35:
+            # (not with more entries than table slots: which of them are served after a reload depends on which
+            # slots happen to be free, which the over-capacity error in the log is there to announce)
             # one reload of the service/rule tables, which every conversation sees after a fixed number of its
             # own events, in every schedule and in its solo run alike
             barrier = self.gen_barrier(rnd, cfg)
@@ -358,6 +364,8 @@ class InterleaveProfile:
             orders.append("solo")
         plan = {"profile": "interleave", "cfg": cfg, "convs": convs, "orders": orders, "after": after, "ended": ended,
                 "barrier": barrier, "bars": bars,
+                # in schedule 0 every client event may arrive inside a backlog of other clients' traffic
+                "padded": [rnd.choice([0, 20, 60, 90, 100, 120, 200]) for _ in range(7)] if rnd.random() < 0.3 else None,
                 # schedule 0 may be preceded by hundreds or thousands of unrelated short-lived clients
                 "prelude": rnd.choice([0, 0, 0, 0, 0, 0, 300, 300, 4200]) if tier == "quick" else rnd.choice([0, 0, 0, 300, 4200, 70000])}
         return plan, self.run(plan, tag)
@@ -423,7 +431,7 @@ class InterleaveProfile:
             order.append(k)
         return order
 
-    def run_order(self, cfg, convs, order, tag, prelude=0, barrier=None):
+    def run_order(self, cfg, convs, order, tag, prelude=0, barrier=None, padded=None):
         """-> (per-conversation projection, result)"""
         ex = Exec(cfg, tag=tag, prop="C07")
         proj = [[] for _ in convs]
@@ -484,6 +492,8 @@ class InterleaveProfile:
                     op = dict(op, inst="nobody")
                 elif which != "cur":
                     op = dict(op, inst=("tag:" + me.tag) if (me is not None and me.ended is not None and me.tag) else "nobody")
+            if padded and op["op"] in ("announce", "cli") and not op.get("seg"):
+                op = dict(op, pad=[padded[(len(ex.res.outputs) * 2) % len(padded)], padded[(len(ex.res.outputs) * 2 + 1) % len(padded)]])
             ok = apply_conv_op(ex, op, me)
             if op["op"] == "announce" and ex.w.all and ex.w.all[-1].cid == op["cid"]:
                 inst_of[k] = ex.w.all[-1]
@@ -533,7 +543,7 @@ class InterleaveProfile:
                 results.append(rs)
             else:
                 pj, rs = self.run_order(cfg, convs, order, tag + "m%d" % n, prelude=plan.get("prelude", 0) if n == 0 else 0,
-                                        barrier=plan.get("barrier"))
+                                        barrier=plan.get("barrier"), padded=plan.get("padded") if n == 0 else None)
                 projs.append(pj)
                 results.append(rs)
         res = results[0] if results else proto.Result()
@@ -565,6 +575,7 @@ class InterleaveProfile:
         res.extra["schedules"] = len(plan["orders"])
         res.extra["with_timeouts"] = int(bool(cfg.get("timeout")))
         res.extra["conversations_taking_over_an_id"] = len(plan.get("after") or {})
+        res.extra["schedules_with_client_lines_inside_a_backlog"] = int(bool(plan.get("padded")))
         res.extra["evaluations_with_a_table_reload_at_fixed_per_client_positions"] = int(bool(plan.get("barrier")))
         res.extra["schedules_after_a_crowd_of_earlier_clients"] = int(bool(plan.get("prelude")))
         res.extra["late_replies_for_departed_clients"] = sum(1 for c in convs for op in c if op.get("late"))
@@ -583,6 +594,11 @@ class InterleaveProfile:
 
     def shrink(self, plan, pred, budget):
         cur = copy.deepcopy(plan)
+        if cur.get("padded") and budget[0] > 0:
+            c = dict(cur, padded=None)
+            budget[0] -= 1
+            if pred(c):
+                cur = c
         for smaller in (0, 300):
             if cur.get("prelude", 0) > smaller and budget[0] > 0:
                 c = dict(cur, prelude=smaller)
@@ -613,8 +629,16 @@ class InterleaveProfile:
             while j < len(cur["convs"][k]) and budget[0] > 0:
                 c = copy.deepcopy(cur)
                 del c["convs"][k][j]
-                if c.get("ended") and c["ended"][k] is not None and j <= c["ended"][k]:
-                    c["ended"][k] -= 1
+                if c.get("ended") and c["ended"][k] is not None:
+                    if j == c["ended"][k]:
+                        # the event that ended this client: without it a conversation that takes over the id
+                        # would no longer be a successor but a re-announcement; keep the plan what it was
+                        if k in (c.get("after") or {}).values():
+                            j += 1
+                            continue
+                        c["ended"][k] = None
+                    elif j < c["ended"][k]:
+                        c["ended"][k] -= 1
                 if c.get("bars") and j < c["bars"][k]:
                     c["bars"][k] -= 1
                 neworders = []
